@@ -12,6 +12,7 @@ value and the number of warnings so far (compile time), and (b) calls every name
 import hv.symx.core  # noqa: F401  (puts /repo on sys.path, pre-imports hy)
 
 import builtins
+import gc
 import itertools
 import multiprocessing
 import os
@@ -101,6 +102,10 @@ def full_alphabet():
 
 REDUCED = [("def", "m1"), ("def", "when"), ("req", "a", "star"), ("req", "b", "as"), ("req", "a", "alias"), ("pragma", False),
            ("pragma", True), ("open", "fn"), ("open", "defclass"), ("open", "lfor"), ("open", "do"), ("close",)]
+
+
+# histories of length 4 (thorough tier) leave out re-enabling the pragma and the aliasing require
+REDUCED4 = [t for t in REDUCED if t not in (("pragma", True), ("req", "a", "alias"))]
 
 
 def medium_alphabet():
@@ -220,12 +225,13 @@ def wrap(shape, body, uid):
 def build(history, extra_names, mode="right"):
     """Walk the history once, producing the program and the specification of every probe point.
     mode: 'right' or a deliberately wrong specification for the must-fail canaries ('module-first', 'no-pop', 'star-all').
-    -> (source, points)   points[pid] = dict(levels, module, option, ctx, after, event, probes={name: (site, ns, doc_only)},
-                                               warn=[names the preceding event must warn about], ...)"""
+    -> (source, points, probe names)   points[pid] = dict(levels, module, option, ctx, depth, event, probes={name: (site,
+    namespace, doc_only)}, warn=[names the preceding event must warn about], info)"""
     module = {}                                   # mangled name -> Entry
     base = {"warn": None}                         # the module-level option holder
     stack = []                                    # [{"macros": {}, "warn": None, "shape": s}]
     open_shapes = []                              # every open form (scopes and containers), innermost last
+    open_points = []
     bodies = [[]]
     extra = {mangle(n): Entry(f"evalarg:{n}") for n in extra_names}
     names = ["m1", "when"]
@@ -303,6 +309,7 @@ def build(history, extra_names, mode="right"):
         elif t[0] == "open":
             shape = t[1]
             open_shapes.append(shape)
+            open_points.append(pid[0] - 1)                    # the probe point just before the form
             bodies.append([])
             if shape in SCOPES:
                 stack.append({"macros": {}, "warn": None, "shape": shape})
@@ -310,9 +317,9 @@ def build(history, extra_names, mode="right"):
         elif t[0] == "close":
             shape = open_shapes.pop()
             body = bodies.pop()
-            info = {"closed": shape}
+            info = {"closed": shape, "before-open": open_points.pop(), "last-inside": pid[0] - 1}
             if shape in SCOPES:
-                ended = stack[-1] if mode != "no-pop" else {"macros": {}, "warn": None, "kinds": set()}
+                ended = stack[-1] if mode != "no-pop" else {"macros": {}, "warn": None}
                 info["ended-had-macros"] = bool(ended["macros"])
                 info["ended-had-pragma"] = ended["warn"] is not None
                 if mode != "no-pop":
@@ -446,16 +453,24 @@ def compare(history, extra_names, src, points, names, ob, prefix=""):
                                              f"mymodule to mymodule.foo; _hy_export_macros defines what `*` collects)\n{src}"))
         # ---- scope end ------------------------------------------------------------------------------------------------
         if ev[0] == "close":
+            # stated on the observations alone: what the compiler's tables were before the form / at its end
             shape = ev[1]
             if shape in SCOPES:
-                out.append((f"scope-end/{shape}/the local table is dropped and the enclosing tables are back", gen_ok, lambda: f"{at}: {obs_levels}\n{src}"))
+                b = ob["snaps"].get(sp["info"]["before-open"])
+                ok = b is not None and real_levels == b["levels"] and sn["module"] == b["module"]
+                out.append((f"scope-end/{shape}/the local table is dropped; the enclosing tables and the module table are as before the scope",
+                            ok, lambda: f"{at}: tables {real_levels} module {sn['module']}; before the scope {b}\n{src}"))
             else:
-                out.append((f"container/{shape}/is no macro scope: its definitions stay in the enclosing table", gen_ok,
-                            lambda: f"{at}: {obs_levels} {sn['module']}\n{src}"))
+                b = ob["snaps"].get(sp["info"]["last-inside"])
+                ok = b is not None and real_levels == b["levels"] and sn["module"] == b["module"]
+                out.append((f"container/{shape}/is no macro scope: leaving it changes no table", ok,
+                            lambda: f"{at}: tables {real_levels} module {sn['module']}; at the end of the form {b}\n{src}"))
         if ev[0] == "open":
             shape = ev[1]
-            out.append((f"scope-entry/{shape}/{'opens a new empty local table' if shape in SCOPES else 'opens no local table'}",
-                        ok_depth and (shape not in SCOPES or (obs_levels and obs_levels[-1] == {})), lambda: f"{at}: {obs_levels}\n{src}"))
+            b = ob["snaps"].get(p - 1)
+            want_levels = None if b is None else b["levels"] + ([{}] if shape in SCOPES else [])
+            out.append((f"scope-entry/{shape}/{'opens a new empty local table on top of the enclosing ones' if shape in SCOPES else 'opens no local table'}",
+                        real_levels == want_levels and ok_depth, lambda: f"{at}: {real_levels}; expected {want_levels}\n{src}"))
         # ---- option ---------------------------------------------------------------------------------------------------
         if ev[0] in ("pragma", "open", "close", "start"):
             what = ("after a scope with its own pragma ended" if ev[0] == "close" and sp["info"].get("ended-had-pragma")
@@ -551,6 +566,26 @@ def histories(alphabet, maxlen):
         for h in itertools.product(alphabet, repeat=n):
             if valid(h):
                 yield h
+
+
+def nesting_histories():
+    """Every ordered pair of scope-opening forms with the same name defined at module level, in the outer and in the inner
+    scope (by defmacro or by require), the pragma set in the outer scope and reset in the inner one, and three levels."""
+    out = []
+    groups = {"m1": [("def", "m1"), ("req", "a", "names")], "when": [("def", "when"), ("req", "a", "alias")]}
+    i = 0
+    for s1, s2 in itertools.product(SCOPES, repeat=2):
+        for n, evs in groups.items():
+            for e1, e2 in itertools.product(evs, repeat=2):
+                h = (("def", n), ("open", s1), e1, ("open", s2), e2)
+                out.append((h, ((), (n,))[i % 2]))
+                i += 1
+        out.append(((("open", s1), ("pragma", False), ("open", s2), ("def", "when"), ("pragma", True), ("def", "when"), ("close",),
+                     ("def", "when"), ("req", "a", "star")), ()))
+    for s1, s2, s3 in itertools.permutations(("fn", "defclass", "lfor", "defn"), 3):
+        out.append(((("def", "m1"), ("open", s1), ("def", "m1"), ("open", s2), ("open", s3), ("def", "m1"), ("close",), ("close",)), ()))
+        out.append(((("open", s1), ("open", s2), ("def", "m1"), ("open", s3), ("req", "b", "as"), ("close",), ("def", "when")), ("m1",)))
+    return out
 
 
 def random_histories(n, maxlen, seed):
@@ -743,22 +778,33 @@ def run(chk):
         else:
             progs_full = [(h, ex) for h in histories(full, l_full) for ex in ((), both)]
             progs_red = [(h, ex) for h in histories(REDUCED, 3) if len(h) == 3 for ex in exs]
-            progs_red += [(h, exs[i % 3]) for i, h in enumerate(h for h in histories(REDUCED, 4) if len(h) == 4)]
-        nrand, rlen = (150, 9) if quick else (3000, 14)
+            progs_red += [(h, exs[i % 3]) for i, h in enumerate(h for h in histories(REDUCED4, 4) if len(h) == 4)]
+        progs_nest = nesting_histories()
+        nrand, rlen = (150, 9) if quick else (1500, 14)
         progs_rand = random_histories(nrand, rlen, chk.seed)
         chk.bounds["full alphabet"] = [" ".join(map(str, t)) for t in full]
         chk.bounds["histories over the full alphabet: length"] = ("0..1 (x macros argument none / {m1, when}); length 2 over the "
                                                                   "alphabet with thinned-out require events" if quick else
                                                                   f"0..{l_full} (x macros argument none / {{m1, when}})")
         chk.bounds["reduced alphabet"] = [" ".join(map(str, t)) for t in REDUCED]
+        chk.bounds["reduced alphabet for length 4"] = [" ".join(map(str, t)) for t in REDUCED4]
         chk.bounds["histories over the reduced alphabet: length"] = (f"3..{l_red} (macros argument none / {{m1}} / {{when}}: all three at "
                                                                      "length 3 in the thorough tier, rotating otherwise)")
         chk.bounds["random histories"] = f"{nrand} of length 4..{rlen} over the full alphabet"
-        chk.bounds["programs"] = {"full": len(progs_full), "reduced": len(progs_red), "random": len(progs_rand)}
+        chk.bounds["nesting histories"] = ("every ordered pair of the 7 scope-opening forms x the same name defined at module level, in "
+                                           "the outer and in the inner scope (defmacro / require) ; pragma set outside, reset inside; "
+                                           "24 three-level nestings")
+        chk.bounds["programs"] = {"full": len(progs_full), "reduced": len(progs_red), "nesting": len(progs_nest), "random": len(progs_rand)}
         jobs = [("", c) for c in chunks(progs_full, chk.jobs * 3)] + [("", c) for c in chunks(progs_red, chk.jobs * 3)] + \
-               [("random/", c) for c in chunks(progs_rand, chk.jobs * 2)]
-        with multiprocessing.get_context("fork").Pool(chk.jobs) as pool:
-            parts = pool.map(_work, jobs, chunksize=1)
+               [("", c) for c in chunks(progs_nest, chk.jobs * 2)] + [("random/", c) for c in chunks(progs_rand, chk.jobs * 2)]
+        # (measured on the 16-core box: 4 to 8 workers give the shortest wall time; 16 only burn more CPU in the kernel)
+        gc.collect()
+        gc.freeze()               # the workers' collections then leave the inherited heap alone (no copy-on-write storm)
+        try:
+            with multiprocessing.get_context("fork").Pool(min(chk.jobs, 8)) as pool:
+                parts = pool.map(_work, jobs, chunksize=1)
+        finally:
+            gc.unfreeze()
         total, cans, nprog = {}, {m: 0 for m in WRONG_MODES}, 0
         for agg, can, n in parts:
             _merge(total, agg)
